@@ -22,7 +22,7 @@ from ..anf import Rat, sym
 from ..guards import (G, TRUE, FALSE, g_and, g_not, g_or, g_equiv, g_implies, g_sat, compare, canon_sign, OPS, count_true)
 from ..gvn import Frame, Obj, PW, Vec, cases_of, veq, mk_pw, Unsupported
 from ..intervals import single_atom
-from .common import RuleCtx, _short, locate_loop, range_args, stored_names, split_at_loop
+from .common import section, RuleCtx, _short, locate_loop, range_args, stored_names, split_at_loop
 
 C = Rat.const
 MODES = ["left", "linear", "right", "hull"]
@@ -90,18 +90,18 @@ def run(ctx):
                           extra_args=lambda e, m_=mname_: {"clustering": e.symbol("clustering"), "t": e.symbol("t"), "method": Obj("enum", f"ClusterRanking.{m_}")},
                           allow=allow_, label=f"[{mname_}]")
     for mode in MODES:
-        _filter_clusters(rc, mode)
-    _corners(rc)
-    _corner_score(rc)
+        section(rc, _filter_clusters, mode)
+    section(rc, _corners)
+    section(rc, _corner_score)
     res.rule("Q-dtype", "no ranking / filtering function stores a float score into an array that inherits the dtype of its argument (integer curves would truncate the scores)")
     from . import detectors as _d
     _d.dtype_guard(rc, "Q-dtype", ["knee_ranking", "postprocessing"])
-    _smooth_ranking(rc)
+    section(rc, _smooth_ranking)
     from . import c16, c17
     from .common import borrow
     borrow(rc, "Q3", c16._best_fit)                              # lf.r2: the fit quality the score multiplies
     borrow(rc, "Q2", c17._sec_rank)                              # rank(): the permutation the arg-max is taken over
-    _q7(rc)
+    section(rc, _q7)
     res.assumptions += ["cluster labels are non-decreasing contiguous runs 0..max (C11-L1) - with a foreign clustering callable the order clause is an assumption",
                         "argmax of rank returns a member attaining the maximal score (argsort is a permutation)"]
     res.not_decided += ["numerical values of the scores", "which of several tied members is returned"]
@@ -117,6 +117,8 @@ def _filter_clusters(rc: RuleCtx, mode: str):
     clusters = cl_[0] if len(cl_) == 1 else None
     kp = Vec([anf.opaque("take", c, knees, array=True) for c in pts.items], "point")
     want_cl = anf.opaque("slot:clustering", ev.to_rat(kp), ev.to_rat(env["t"]), array=True)
+    if clusters is None:
+        raise AnalysisError(f"filter_clusters[{mode}]: no call of the clustering argument in front of the cluster loop ({len(cl_)} candidates) - shape not recognised")
     if not (isinstance(clusters, Rat) and clusters.equals(want_cl)):
         res.violation("Q1", fi.module, fi.name, fi.node, "the cluster labels are not clustering(points[knees], t)", _short(clusters), "clustering(points[knees], t)",
                       construct="cluster labels")
@@ -311,6 +313,9 @@ def _corners(rc: RuleCtx):
     ra = range_args(loop)
     lo = fr.expr(ra[0], env) if ra and len(ra) == 2 else (C(0) if ra and len(ra) == 1 else None)
     hi = fr.expr(ra[-1], env) if ra else None
+    if clusters is None or not ra:
+        # the labels are computed, or the clusters listed, somewhere else (a helper, np.split, a comprehension): by value
+        return _corners_by_value(rc)
     if not (isinstance(clusters, Rat) and isinstance(lo, Rat) and lo.is_zero() and isinstance(hi, Rat) and hi.equals(anf.opaque("amax", clusters, array=False) + C(1))):
         res.violation("Q5", fi.module, fi.name, loop, "corner variant: the clusters 0..max(labels) are not all visited once", ast.unparse(loop.iter), "range(0, clusters.max()+1)",
                       construct="corner cluster range")
